@@ -7,6 +7,7 @@ import (
 	"sort"
 	"strings"
 	"time"
+	"verif/harness/simdisk"
 
 	"github.com/anishathalye/porcupine"
 	"github.com/syndtr/goleveldb/leveldb"
@@ -32,6 +33,7 @@ type hop struct {
 	full   bool              // obs covers the whole key universe
 	done   bool
 	tx     bool
+	sync   bool
 	desc   string
 }
 
@@ -162,6 +164,7 @@ func (r *runner) clientConc(ci int, ops []Op) {
 			h := r.begin(ci, "write")
 			h.recs = opRecs(op)
 			h.desc = op.K
+			h.sync = op.Sync
 			simrt.SetOp(op.K)
 			var err error
 			switch op.K {
@@ -189,7 +192,7 @@ func (r *runner) clientConc(ci int, ops []Op) {
 				}
 			}
 			r.end(h)
-			if err == nil && r.c.Prop == "C10" && !r.isLarge(h) {
+			if err == nil && (r.c.Prop == "C10" || r.c.Prop == "C05") && !r.isLarge(h) {
 				r.checkLogged(ci, h)
 			}
 		case "get":
@@ -352,6 +355,9 @@ func (r *runner) clientConc(ci int, ops []Op) {
 // has been logged - every value of it is in some journal, live or already
 // retired by a flush.
 func (r *runner) checkLogged(ci int, h *hop) {
+	if h.sync && !r.knobs.NoSync {
+		r.checkSynced(ci, h)
+	}
 	for _, rc := range h.recs {
 		if rc.Del {
 			continue
@@ -409,6 +415,32 @@ func (r *runner) checkLogged(ci int, h *hop) {
 			return
 		}
 		r.probe("ack-logged")
+	}
+}
+
+// checkSynced: a write acknowledged with the sync option is durable at that
+// moment - its journal record lies within the synced prefix of its journal
+// (or the journal was already retired by a flush, whose table is synced).
+func (r *runner) checkSynced(ci int, h *hop) {
+	for _, rc := range h.recs {
+		if rc.Del {
+			continue
+		}
+		needle := []byte(fmt.Sprintf("v%08x.", rc.Val.ID))
+		for _, fd := range r.disk.ListFiles(storage.TypeJournal) {
+			data, _ := r.disk.Data(fd)
+			recs, _, _ := decode.Journal(data)
+			for _, jr := range recs {
+				if bytes.Contains(jr.Data, needle) {
+					if r.disk.Synced(fd) < jr.End {
+						r.viol("wgroup", "wgroup:sync-ack-not-durable", fmt.Sprintf("client %d: write of %q was acknowledged with Sync but its journal record [%d,%d) of %s is beyond the synced prefix (%d bytes)", ci, []byte(rc.Key), jr.Start, jr.End, fd, r.disk.Synced(fd)))
+					}
+					r.probe("sync-ack-durable")
+					return
+				}
+			}
+		}
+		return
 	}
 }
 
@@ -839,6 +871,324 @@ func (r *runner) journalGroups() *groupInfo {
 		}
 	}
 	return gi
+}
+
+// ---- concurrent writers + crash (C04) ----
+
+// Each client writes only its own keys, so that per key the writes are
+// totally ordered by program order: after the crash a key must hold the last
+// sync-acknowledged write to it or a later one.
+func (r *runner) mainConcCrash() {
+	r.cs = &concState{valLen: map[uint32]int{}, journals: map[int64][]byte{}}
+	for _, f := range r.c.Faults {
+		if f.Kind != "crash" {
+			r.errFaults = true
+		}
+	}
+	type wrec struct {
+		id    uint32
+		acked bool
+		sync  bool
+	}
+	perKey := map[string][]*wrec{}
+	ev := &simrt.Event{}
+	r.disk.H.OnCrash = func(f *simdisk.Fault) {
+		r.crashed = true
+		r.crashF = f
+		ev.Set()
+		simrt.KillEpoch(r.disk.Epoch + 1000)
+	}
+	simrt.GoEpoch(r.disk.Epoch+1000, "client", func() {
+		defer ev.Set()
+		if err := r.openRetry(); err != nil {
+			r.viol("open", "open-failed", fmt.Sprintf("Open failed: %v", err))
+			return
+		}
+		var wg simrt.WaitGroup
+		for ci := range r.c.Clients {
+			ci := ci
+			wg.Add(1)
+			simrt.Go(fmt.Sprintf("client%d", ci), func() {
+				defer wg.Done()
+				db := r.db
+				for i := range r.c.Clients[ci] {
+					op := &r.c.Clients[ci][i]
+					recs := opRecs(op)
+					var ws []*wrec
+					for _, rc := range recs {
+						w := &wrec{id: rc.Val.ID, sync: op.Sync && !r.knobs.NoSync}
+						if rc.Del {
+							w.id = 0
+						}
+						perKey[string(rc.Key)] = append(perKey[string(rc.Key)], w)
+						ws = append(ws, w)
+						r.cs.valLen[rc.Val.ID] = rc.Val.Len
+					}
+					var err error
+					simrt.SetOp(op.K)
+					switch op.K {
+					case "put":
+						err = db.Put(op.Key, op.Val.Bytes(), r.wo(op))
+					case "del":
+						err = db.Delete(op.Key, r.wo(op))
+					case "tx":
+						// an explicit transaction; a failed Commit is followed
+						// by Discard, as the API documents
+						var tr *leveldb.Transaction
+						tr, err = db.OpenTransaction()
+						if err == nil {
+							r.probe("tx")
+							for _, rc := range recs {
+								if e := tr.Put(rc.Key, rc.Val.Bytes(), nil); e != nil {
+									err = e
+									break
+								}
+							}
+							if err == nil {
+								err = tr.Commit()
+							}
+							if err != nil {
+								r.probe("tx-commit-failed")
+								tr.Discard()
+							}
+						}
+					default:
+						b := new(leveldb.Batch)
+						for _, rc := range recs {
+							if rc.Del {
+								b.Delete(rc.Key)
+							} else {
+								b.Put(rc.Key, rc.Val.Bytes())
+							}
+						}
+						err = db.Write(b, r.wo(op))
+					}
+					simrt.SetOp("")
+					simrt.Progress()
+					r.probe("overlap")
+					if op.K == "close" {
+						r.probe("close-race")
+						db.Close()
+						simrt.Progress()
+						return
+					}
+					if op.K == "sleep" {
+						simrt.IdleFor(time.Duration(op.Ms) * time.Millisecond)
+						continue
+					}
+					if err != nil {
+						if r.errFaults {
+							// a failed write is not acknowledged: it may or may
+							// not be there after the reopen
+							r.probe("write-failed")
+							if err == leveldb.ErrClosed {
+								return
+							}
+							continue
+						}
+						if err == leveldb.ErrClosed {
+							return
+						}
+						r.viol("write-err", "write-err:"+errClass(err), fmt.Sprintf("client %d: %s returned %v", ci, op.K, err))
+						return
+					}
+					for _, w := range ws {
+						w.acked = true
+					}
+					r.out.OpsDone++
+				}
+			})
+		}
+		wg.Wait()
+		if r.db != nil && len(r.out.Viol) == 0 {
+			r.releaseHandles()
+			simrt.SetOp("Close")
+			r.db.Close() // returns ErrClosed if a client closed already
+			simrt.SetOp("")
+			simrt.Progress()
+			r.db = nil
+		}
+	})
+	ev.Wait()
+	if len(r.out.Viol) > 0 {
+		simrt.Abort("violation")
+	}
+	if r.crashed {
+		r.crashes++
+		r.probe("crash")
+		r.db = nil
+		mode := simdisk.ImagePowerLoss
+		if r.knobs.NoSync {
+			mode = simdisk.ImageProcessDeath
+		}
+		r.disk.NextEpoch(mode, r.crashF.Img, true)
+		r.mon.epochStart()
+	} else {
+		r.disk.NextEpoch(simdisk.ImagePowerLoss, 0, false)
+	}
+	simrt.SetEpoch(r.disk.Epoch + 1000)
+	r.disk.Healed = true
+	if err := r.openRetry(); err != nil {
+		r.viol("open", "open-failed", fmt.Sprintf("Open after the crash / close failed: %v", err))
+		simrt.Abort("violation")
+	}
+	var keys []string
+	for k := range perKey {
+		keys = append(keys, k)
+	}
+	sort.Strings(keys)
+	for _, k := range keys {
+		ws := perKey[k]
+		v, err := r.db.Get([]byte(k), nil)
+		simrt.Progress()
+		var got uint32
+		switch {
+		case err == leveldb.ErrNotFound:
+		case err != nil:
+			r.viol("get", "get:error", fmt.Sprintf("Get(%q) after the crash returned %v", k, err))
+			continue
+		default:
+			id, ok := r.valID(v)
+			if !ok {
+				r.viol("scan", "scan:invented", fmt.Sprintf("key %q holds bytes that were never written: %s", k, descVal(true, v)))
+				continue
+			}
+			got = id
+		}
+		// index of the last write that must have survived: after a crash the
+		// last one acknowledged with Sync, after a clean close the last one
+		// acknowledged at all
+		minIdx := -1
+		for i, w := range ws {
+			if w.acked && (w.sync || !r.crashed) {
+				minIdx = i
+			}
+		}
+		okk := minIdx < 0 && got == 0
+		for i, w := range ws {
+			if i >= minIdx && w.id == got {
+				okk = true
+			}
+		}
+		if !okk {
+			what, f := "after the crash", "scan:sync-write-lost"
+			if !r.crashed {
+				what, f = "after close and reopen", "scan:acked-write-lost"
+			}
+			r.viol("scan", f, fmt.Sprintf("key %q %s: got value id %d, but write #%d to it (of %d) was acknowledged and only it or a later write may be there", k, what, got, minIdx, len(ws)))
+		}
+	}
+	if len(r.out.Viol) > 0 {
+		simrt.Abort("violation")
+	}
+	r.closeDB()
+}
+
+// genConcFault: concurrent writers on disjoint keys under error faults, one of
+// them possibly closing the DB, then reopen (C08).
+// openRetry opens the DB, trying again while the failure is an injected fault.
+func (r *runner) openRetry() error {
+	var err error
+	for i := 0; i < 50; i++ {
+		if err = r.open(false); err == nil || !isInjected(err) {
+			return err
+		}
+		r.probe("open-failed-by-fault")
+	}
+	r.disk.Healed = true
+	return r.open(false)
+}
+
+func genConcFault(seed uint64, g *gen) *Case {
+	c := genConcCrash(seed, g)
+	r := g.r
+	c.Prop = "C08"
+	c.Faults = nil
+	g.faultPlan(c, "C08")
+	for _, f := range c.Faults {
+		if r.p(0.6) {
+			f.FT = []int{int(storage.TypeJournal), int(storage.TypeManifest)}[r.intn(2)]
+			f.Op = []string{simdisk.OpWrite, simdisk.OpSync}[r.intn(2)]
+			f.Nth = r.rng(1, 25)
+		}
+	}
+	// oversized batches take the transaction route
+	if r.p(0.5) {
+		c.Knobs.WriteBuffer = r.pick(512, 1024)
+		c.Knobs.DisableLargeBatchTx = false
+	}
+	if r.p(0.4) {
+		ci := r.intn(len(c.Clients))
+		at := r.intn(len(c.Clients[ci]) + 1)
+		c.Clients[ci] = append(c.Clients[ci][:at:at], Op{K: "close"})
+	}
+	if r.p(0.3) {
+		// Close racing a transaction commit that is being retried: client 0
+		// commits an explicit transaction while manifest syncs fail, another
+		// client sleeps a little and closes the DB
+		var recs []Rec
+		for j := r.rng(1, 6); j > 0; j-- {
+			recs = append(recs, Rec{Key: B(fmt.Sprintf("c0-%d", r.intn(3))), Val: g.val(400)})
+		}
+		at := r.intn(len(c.Clients[0]) + 1)
+		c.Clients[0] = append(c.Clients[0][:at:at], append([]Op{{K: "tx", Recs: recs}}, c.Clients[0][at:]...)...)
+		c.Clients = append(c.Clients, []Op{{K: "sleep", Ms: r.pick(1, 300, 900, 1500, 2500)}, {K: "close"}})
+		c.Faults = append(c.Faults, &simdisk.Fault{Kind: "err", Op: simdisk.OpSync, FT: int(storage.TypeManifest), Nth: r.rng(1, 8), Count: r.rng(1, 4), Epoch: -1})
+	}
+	return c
+}
+
+func genConcCrash(seed uint64, g *gen) *Case {
+	r := g.r
+	c := &Case{Prop: "C04", Seed: seed, Scenario: "conccrash"}
+	c.Knobs = g.knobs("bytewise")
+	g.cmp = comparerByName("bytewise").Compare
+	c.Knobs.WriteBuffer = r.pick(1024, 4096, 65536, 1<<20)
+	c.Knobs.NoWriteMerge = false
+	c.Knobs.NoSync = false
+	g.wb = c.Knobs.WriteBuffer
+	c.Sched = g.sched()
+	if c.Sched.Strategy == 0 && c.Sched.YieldP < 0.002 {
+		c.Sched.YieldP = []float64{0.002, 0.01, 0.05, 0.2}[r.intn(4)]
+	}
+	c.Sched.StallP = 0
+	nc := r.rng(2, 6)
+	for ci := 0; ci < nc; ci++ {
+		var ops []Op
+		nk := r.rng(1, 4)
+		key := func() B { return B(fmt.Sprintf("c%d-%d", ci, r.intn(nk))) }
+		for i := r.rng(3, 20); i > 0; i-- {
+			sync := r.p(0.35)
+			switch x := r.intn(10); {
+			case x < 6:
+				v := g.val(300)
+				ops = append(ops, Op{K: "put", Key: key(), Val: v, Sync: sync})
+			case x < 7:
+				ops = append(ops, Op{K: "del", Key: key(), Sync: sync})
+			default:
+				var recs []Rec
+				for j := r.rng(1, 4); j > 0; j-- {
+					recs = append(recs, Rec{Key: key(), Val: g.val(300)})
+				}
+				ops = append(ops, Op{K: "write", Recs: recs, Sync: sync})
+			}
+		}
+		c.Clients = append(c.Clients, ops)
+	}
+	if r.p(0.4) {
+		c.Slow = append(c.Slow, r.intn(nc))
+	}
+	f := &simdisk.Fault{Kind: "crash", Epoch: 0, Img: r.u64(), After: r.p(0.4)}
+	switch x := r.intn(10); {
+	case x < 5:
+		f.Op, f.FT, f.Nth = simdisk.OpWrite, int(storage.TypeJournal), r.rng(2, 60)
+	case x < 7:
+		f.Op, f.FT, f.Nth = simdisk.OpSync, int(storage.TypeJournal), r.rng(1, 20)
+	default:
+		f.Nth = r.rng(10, 400)
+	}
+	c.Faults = []*simdisk.Fault{f}
+	return c
 }
 
 // ---- generator ----
